@@ -379,3 +379,12 @@ func Patience() time.Duration {
 	}
 	return 2 * time.Second
 }
+
+// LongWait bounds calls that should succeed quickly (deadline of follow-up calls): 4 s during search,
+// 25 s in replay so that a loaded machine cannot turn slowness into a reproduced verdict.
+func LongWait() time.Duration {
+	if os.Getenv("VERIF_REPLAY") != "" {
+		return 25 * time.Second
+	}
+	return 4 * time.Second
+}
